@@ -442,7 +442,7 @@ def C23(ctx):
     # ---- G: schema pairs from TLC, verdicts from the real comparison
     # quick: the 4 bases of one residue class mod 4 (chosen by the seed); thorough: all 16 bases
     bm = {"BaseMod": 4, "BaseRem": ctx.seed % 4} if q else {"BaseMod": 1, "BaseRem": 0}
-    runs = [("single-edits", dict({"Depth": 1, "Sample": 1}, **bm)), ("double-edits", dict({"Depth": 2, "Sample": 12 if q else 4}, **bm))]
+    runs = [("single-edits", dict({"Depth": 1, "Sample": 1}, **bm)), ("double-edits", dict({"Depth": 2, "Sample": 12 if q else 2}, **bm))]
     pairs, per_run = [], {}
     for name, consts in runs:
         g = tlc("SborSchema", "GenSborSchema", workers=8, coverage=False, timeout=2400, consts=consts)
@@ -513,7 +513,7 @@ def C23(ctx):
                     "compare_single_type_schemas run with require_equality() and allow_extension() (also with all name changes allowed); "
                     "(quick tier: the 4 bases of one residue class mod 4) for every reported valid extension TLC checks Valid(old) => Valid(new), for every reported equality Valid(old) <=> "
                     "Valid(new), over the complete bounded payload universe (every value tree of <= 3 nodes plus 4-node chains / triples / "
-                    "two-cell lists); distinct = pairs with at least one 'valid' verdict" % ("a 1/12 sample of" if q else "a quarter of all")}
+                    "two-cell lists); distinct = pairs with at least one 'valid' verdict" % ("a 1/12 sample of" if q else "half of all")}
 
 
 # =============================================================================================
